@@ -121,7 +121,7 @@ func (m *model) add(raw json.RawMessage, exhaustive bool) {
 	}
 }
 
-var cheap = []string{"pipeline", "privsel", "counter", "host"}
+var cheap = []string{"pipeline", "rebind", "privsel", "counter", "host"}
 var costly = []string{"pool", "drain", "prodcons", "interps"}
 
 // exhaustive model checking of the families; returns per-run statistics
@@ -299,7 +299,10 @@ func realInstances(c *fw.Ctx) []inst {
 	var r []inst
 	for _, n := range ns {
 		for _, b := range bs {
-			r = append(r, inst{"pipeline", 0, n, b, 3}, inst{"pool", n, 0, b, 3}, inst{"drain", n, 0, b, 3})
+			r = append(r, inst{"pool", n, 0, b, 3}, inst{"drain", n, 0, b, 3})
+			for form := 0; form <= 3; form++ {
+				r = append(r, inst{"pipeline", form, n, b, 3})
+			}
 			if b <= 1 {
 				r = append(r, inst{"privsel", n, 0, b, 2})
 			}
@@ -307,11 +310,19 @@ func realInstances(c *fw.Ctx) []inst {
 				r = append(r, inst{"prodcons", p[0], p[1], b, 2})
 			}
 		}
+		for form := 0; form <= 3; form++ {
+			r = append(r, inst{"rebind", n, form, 0, 2})
+		}
 		r = append(r, inst{"counter", n, 1, 0, 2}, inst{"counter", n, 2, 0, 2}, inst{"host", n, 0, 0, 2}, inst{"interps", n, 0, 0, 1})
 	}
 	r = append(r, inst{"privsel", 1, 0, 0, 2}, inst{"privsel", 1, 1, 0, 2})
 	return r
 }
+
+const (
+	trigLiteral     = `function literal called in place by a go statement that executes more than once (counter form 2, rebind form 1, pipeline form 1), n >= 2`
+	trigMethodValue = `go statement on a method value inside a loop whose next iteration rebinds the receiver variable (rebind form 3, pipeline form 3), n >= 2`
+)
 
 // trigger is the model-level class of an instance, the first half of a finding's signature.
 func trigger(in inst) string {
@@ -320,8 +331,10 @@ func trigger(in inst) string {
 		return `template "private channels in the same select statement", n >= 2`
 	case in.T == "privsel" && in.K == 1:
 		return `template privsel n=1, value of the send case computed inside the comm clause (case ch <- expr)`
-	case in.T == "counter" && in.K == 2 && in.N >= 2:
-		return `template counter, form 2 (function literal started with go from the same statement in a loop), n >= 2`
+	case in.T == "counter" && in.K == 2 && in.N >= 2, in.T == "rebind" && in.K == 1 && in.N >= 2, in.T == "pipeline" && in.N == 1 && in.K >= 2:
+		return trigLiteral
+	case in.T == "rebind" && in.K == 3 && in.N >= 2, in.T == "pipeline" && in.N == 3 && in.K >= 2:
+		return trigMethodValue
 	}
 	return fmt.Sprintf("template %s n=%d k=%d b=%d", in.T, in.N, in.K, in.B)
 }
@@ -449,6 +462,12 @@ func run(c *fw.Ctx) error {
 	var rjobs []job
 	var rcases []modelInst
 	for _, mi := range cases {
+		// Excluded_F_C08_4: while that finding is listed as known, the method-value forms stay out
+		// of the race pass (the late read of the receiver races with whatever the spawner does
+		// next, under ever new signatures); the plain runs keep them, so the finding is printed
+		if trigger(mi.I) == trigMethodValue && c.IsKnown(trigMethodValue, "output differs from the model's unique output") {
+			continue
+		}
 		// quick: every instance, fewer repetitions; the select template and the templates
 		// with function literals get more
 		reps := c.Pick(8, 200)
